@@ -221,6 +221,17 @@ func (ex *Exec) noteConjunct(c *Term) {
 				bs[v/64] &^= 1 << uint(v%64)
 			}
 		}
+		// a symbol pinned to one value is substituted in xor normal forms from now on
+		n, last := 0, 0
+		for v := 0; v < 256 && n < 2; v++ {
+			if bs[v/64]&(1<<uint(v%64)) != 0 {
+				n++
+				last = v
+			}
+		}
+		if n == 1 {
+			ex.ts.subst[c.single] = ex.ts.Const(8, uint64(last))
+		}
 		return
 	}
 	// symbols occurring in multi-symbol conjuncts are no longer decided by their value set alone
@@ -359,6 +370,17 @@ func (ex *Exec) assume(c *Term) {
 	}
 	if ex.inMerge {
 		panic(mergeBail{"assume"})
+	}
+	if v, decided := ex.quickDecide(c); decided {
+		if !v {
+			ex.end("assumed", "")
+		}
+		return
+	}
+	if c.single != nil && !ex.entangled[c.single.name] {
+		// some value of the symbol satisfies c and nothing else constrains the symbol
+		ex.addPC(c)
+		return
 	}
 	if ex.frontier() {
 		r := ex.w.solver.Check(ex.pc, c)
